@@ -28,6 +28,8 @@ Definition jv_spec (s : st) (e : ev) : jv :=
   | Pids => match tbl s with [] => jnone | _ => JC "Pids" [jv_zs (spec_pids (tbl s))] end
   | PidExists n => if (n =? 0) && match tbl s with [] => true | _ => false end then jnone
                    else JC "Bool" [jbool (spec_pid_exists (tbl s) n)]
+  | PidExistsF n _ => if (n =? 0) && match tbl s with [] => true | _ => false end then jnone
+                      else JC "Bool" [jbool (spec_pid_exists (tbl s) n)]
   | _ => jnone
   end.
 
